@@ -69,7 +69,7 @@ Proof. exact nothing_created_nothing_left. Qed.
 Print Assumptions C18_all_or_nothing_partial_early.
 
 (* leftover_at i x: on the tree of corpus/C18/two-roots.json (target /s/t, scope /s, newDir /new),
-   failing fallible operation number i ends with outcome x, satisfies every hypothesis of
+   failing file-system call number i ends with outcome x, satisfies every hypothesis of
    all_or_nothing_law, and leaves /new behind. *)
 
 (* (c) CleanedAbs inside cleanedRelativePath fails: log.Fatalf, the process exits *)
@@ -82,14 +82,14 @@ Theorem C18_all_or_nothing_refuted_4 : exists i, leftover_at i XPanic.
 Proof. exact all_or_nothing_refuted_4. Qed.
 Print Assumptions C18_all_or_nothing_refuted_4.
 
-(* (e) helm: ConfirmDir inside copyChartHome fails (corpus/C18/helm-chart-home.json, fallible
-   operation 23): log.Panicf, /new with a partial copy stays *)
+(* (e) helm: ConfirmDir inside copyChartHome fails (corpus/C18/helm-chart-home.json, file-system
+   call 25): log.Panicf, /new with a partial copy stays *)
 Theorem C18_all_or_nothing_refuted_5 :
   fs_wf ex2_fs /\
   exists_path ex2_fs ex_nd = false /\
-  snd (ex2_run (Some 23)) = OExn XPanic /\
-  (forall e, In e (w_trace (fst (ex2_run (Some 23)))) -> ev_op e = ORemoveAll -> ev_ok e = true) /\
-  exists_path (w_fs (fst (ex2_run (Some 23)))) ex_nd = true.
+  snd (ex2_run (Some 25)) = OExn XPanic /\
+  (forall e, In e (w_trace (fst (ex2_run (Some 25)))) -> ev_op e = ORemoveAll -> ev_ok e = true) /\
+  exists_path (w_fs (fst (ex2_run (Some 25)))) ex_nd = true.
 Proof. exact leftover_5. Qed.
 Print Assumptions C18_all_or_nothing_refuted_5.
 
@@ -200,3 +200,28 @@ Theorem C18_Gen_fatal_sites :
    ("locRootPath", "log.Panicf")].
 Proof. exact Gen_fatal_sites. Qed.
 Print Assumptions C18_Gen_fatal_sites.
+
+(* the fault points of the model = the FileSystem call sites of the source (see Fs/LocalizeProofs.v
+   model_fs_sites): site-for-site agreement with the regenerated list, and the effect signature is
+   exactly the set of methods called at the in-model sites.  [run] can fail every effect a program
+   issues (C18_every_call_is_a_fault_point). *)
+Theorem C18_Gen_fs_call_sites :
+  List.map fst model_fs_sites = gen_fs_call_sites.
+Proof. exact Gen_fs_call_sites. Qed.
+Print Assumptions C18_Gen_fs_call_sites.
+
+Theorem C18_Gen_fault_points :
+  forallb (fun m => existsb (fun o => String.eqb (opcode_name o) m) all_opcodes) in_model_methods = true /\
+  forallb (fun o => existsb (String.eqb (opcode_name o)) in_model_methods) all_opcodes = true.
+Proof. exact Gen_fault_points. Qed.
+Print Assumptions C18_Gen_fault_points.
+
+(* every file-system call of a run is a fault point: when the fault index equals the number of calls
+   made so far, the call fails (error result, or false for Exists) and the state is untouched *)
+Theorem C18_every_call_is_a_fault_point :
+  forall (e : eff) (w : world),
+    (forall c, e <> EChoose c) ->
+    step_world (Some (w_n w)) e w =
+    (mkW (w_fs w) (S (w_n w)) (mkEv (eff_op e) (eff_path e) (res_ok (fail_res e)) :: w_trace w), fail_res e).
+Proof. exact every_call_faultable. Qed.
+Print Assumptions C18_every_call_is_a_fault_point.
